@@ -1,18 +1,14 @@
-"""Registry: which Lean modules, which engine harness and which trusted base decide each property."""
-
-KERNEL = "Lean 4.33.0 kernel; axioms limited to propext, Classical.choice, Quot.sound (audited by #print axioms on every run; leanchecker in the thorough tier)"
-TRANSLATOR = "go/extract (go/ast translator, arithmetic subset / encoder schemas): trusted to render the Go subset faithfully; validated on every run by running the generated defs and the real functions on the same inputs"
-HARNESS = "the Go harness, its canonicaliser and id abstraction: trusted to report what the implementation returned"
-CRYPTO = "ECDSA, SHA-256, address derivation (xuperchain/crypto) are not modelled: a signature entry is abstracted to the boolean result of the real verification, computed by the real code in the harness"
-
-PROPS = {
-    'C14': dict(
-        engine='safety', driver='safety', stateful=False,
-        lean=['XV.Props.C14'],
-        level='proof',
-        trusted_base=[KERNEL, TRANSLATOR, HARNESS, CRYPTO,
-                      "modelled by hand (tied by correspondence, not by translation): the signature loop of CheckProposal and CheckVote; translated from source: CalVotesThreshold, CheckPacemaker"],
-        assumptions=["validator lists have no repeated address", "view-number / pending-tree preconditions of CheckProposal are satisfied (the certified proposal is in the local tree)",
-                     "no signature forgery: an entry verifies only if produced with the private key of the claimed address"],
-    ),
-}
+"""Registry loader: every lib/registry/*.py defines PROPS, META, ENGINES, HOOK_COMMITS (optionally NOT_APPLICABLE)."""
+import os, glob, importlib.util, sys
+_here = os.path.dirname(os.path.abspath(__file__))
+sys.path.insert(0, _here)
+PROPS, META, ENGINES, HOOK_COMMITS, NOT_APPLICABLE = {}, {}, [], [], {}
+for _f in sorted(glob.glob(os.path.join(_here, 'registry', '*.py'))):
+    _spec = importlib.util.spec_from_file_location('xvreg_' + os.path.basename(_f)[:-3], _f)
+    _m = importlib.util.module_from_spec(_spec)
+    _spec.loader.exec_module(_m)
+    PROPS.update(getattr(_m, 'PROPS', {}))
+    META.update(getattr(_m, 'META', {}))
+    ENGINES += getattr(_m, 'ENGINES', [])
+    HOOK_COMMITS += getattr(_m, 'HOOK_COMMITS', [])
+    NOT_APPLICABLE.update(getattr(_m, 'NOT_APPLICABLE', {}))
